@@ -1,0 +1,8 @@
+//go:build verif
+
+package retry
+
+import "time"
+
+// VerifParams exposes the unexported back-off constants (verification hook).
+func VerifParams() (base, max time.Duration) { return baseDuration, maxDuration }
